@@ -36,14 +36,14 @@ MODEL = M6()
 def gen(rng, prop, job):
     from . import m6_till
     if job.get("crash"):
-        return m6_till.gen_crash(rng)
+        return m6_till.gen_crash(rng, allow_crash=(prop == "C14"))       # (a daemon that dies fires everything early: C14's subject, not C13's)
     return m6_till.gen_scenario(rng, prop)
 
 
 def make_jobs(prop, tier, seed):
     jobs = plug.std_jobs(prop, tier, seed, "m6", n_quick=16, per_quick=8, schedules=6)
     jobs.extend(plug.line_jobs(prop, tier, seed))
-    if prop == "C14":
+    if prop in ("C13", "C14"):
         for j in range(2 if tier == "quick" else 12):
             jobs.append({"kind": "explore", "crash": True, "prop": prop, "seed": seed * 49979693 + j, "scenarios": 8, "schedules": 4, "no_driver": True})
     if tier == "thorough":
